@@ -157,7 +157,7 @@ def _run_native(contract, sname, values, fn=None):
                         out.failed.append((lab, f"yielded {y!r}"))
             res = ys
         out.exit, out.result = "normal", res
-    except Exception as e:
+    except BaseException as e:   # also the injected KeyboardInterrupt / SystemExit / GeneratorExit of the failure-atomicity contracts
         out.exit, out.exc = "raise", e
     if frame_pre is not None:
         # before anything renders the result: __repr__/__str__ of repository objects may normalise their fields in place
